@@ -59,7 +59,7 @@ def play_random(rng, sess, max_ops, reported_done=None):
 
 class C08Prop(core.Prop):
     pid = "C08"
-    lean_targets = ["Abmarl.Props.C08", "Abmarl.Props.C13", "Abmarl.Props.C14", "Abmarl.Props.C20"]
+    lean_targets = ["Abmarl.Props.C08", "Abmarl.Props.C03", "Abmarl.Props.C13", "Abmarl.Props.C14", "Abmarl.Props.C20"]
     rule = ("used-versus-fresh twins on the real code: a manager / OpenSpiel adapter / GymABS is dirtied by a generated "
             "prefix history (1-3 episodes, each cut mid-turn, after finishes, after all-done), then reset and a follow-up "
             "episode are played under a fresh seed; a newly built copy plays the same follow-up under the same seed; the "
@@ -205,7 +205,54 @@ class C08Prop(core.Prop):
                 if n >= (400 if quick else 8000):
                     break
 
+    # -- grid-world state components: used world versus fresh world, through the history model of C03 -------
+    def _grid_case(self, cfg, pops, fops):
+        """the used world plays the prefix `pops` (episodes cut anywhere: moves, attacks, deaths, resets), then the
+        follow-up `fops` (a full reset first); a newly built world plays the follow-up alone under the same tapes.
+        The model runs the follow-up from the FRESH world's dump; its trace, the used world's and the fresh
+        world's must all be equal."""
+        import p_c03
+        used = p_c03.HistSession(cfg)
+        pent, _ = p_c03.run_ops(used, pops)
+        uent, _ = p_c03.run_ops(used, fops)
+        fresh = p_c03.HistSession(cfg)
+        fent, _ = p_c03.run_ops(fresh, fops)
+        fops_run = fops[:len(uent)]
+        line = "(ghist " + fresh.stat_s + " " + p_c03.fenc(fresh.dyn0) + " " + \
+               p_c03.fenc([fresh.op_wire(op) for op in fops_run]) + " " + p_c03.fenc(uent) + ")"
+        desc = {"layer": "grid", "cfg": cfg, "pops": pops, "fops": fops}
+        same = p_c03.fenc(uent) == p_c03.fenc(fent)
+        tags = ["layer:grid", "place:" + cfg["place"]["kind"], "prefix-resets:%d" % min(3, sum(1 for o in pops if o[0] == "reset")),
+                "prefix-len:" + ("0" if not pops else "1-5" if len(pops) <= 5 else "6+"),
+                "twin:" + ("same" if same else "DIFFERENT")]
+        if pent and pent[-1][0] != "ok":
+            tags.append("prefix-ended-in-error")
+        if any(not s[2] for e in pent if e[0] == "ok" for s in e[1][1]):
+            tags.append("prefix-with-deaths")
+        c = core.Case(desc, line, p_c03.fenc(uent), key=json.dumps(["grid", line], default=str),
+                      nontrivial=len(pops) > 1, tags=tags)
+        return c
+
+    def _grid_cases(self, tier, rng):
+        import p_c03
+        quick = tier == "quick"
+        made = 0
+        while made < (250 if quick else 8000):
+            cfg = p_c03.gen_cfg(rng)
+            try:
+                used = p_c03.HistSession(cfg)
+            except (ValueError, AssertionError, KeyError, TypeError):
+                continue
+            pops, pent, _ = p_c03.gen_history(rng, used, rng.randint(0, 18))
+            if rng.random() < 0.9 and pent and pent[-1][0] != "ok":
+                continue                                   # mostly prefixes that ran (a failed reset leaves a partial grid)
+            fops, _, _ = p_c03.gen_history(rng, used, rng.randint(0, 8))
+            made += 1
+            yield self._grid_case(cfg, pops, fops)
+
     def case_from_desc(self, d):
+        if d["layer"] == "grid":
+            return self._grid_case(d["cfg"], d["pops"], d["fops"])
         if d["layer"] == "sub":
             return self._wrap(d["sub"], self._subs()[d["sub"]].case_from_desc(d["desc"]))
         if d["layer"] == "manager":
@@ -241,9 +288,26 @@ class C08Prop(core.Prop):
                 for _ in range(rng.randint(1, 14)):
                     calls.append(["r"] if rng.random() < 0.25 else ["s", rng.randrange(10)])
                 yield self._gymabs_case(rng.randint(1, 5), calls)
+        yield from self._grid_cases(tier, rng)
         yield from self._sub_cases(tier, rng)
 
     def interpret(self, reply, case):
+        if case.desc.get("layer") == "grid":
+            import p_c03
+            model, ms, is_, pre, diag = reply
+            if is_ not in (0, 1):
+                raise ValueError("driver could not parse the implementation's trace")
+            twin_same = "twin:same" in case.tags
+            detail = {"pre": pre, "used_equals_fresh_twin": twin_same}
+            ms_ = p_c03.fenc(model)
+            if ms_ != case.impl:
+                impl = wire.dec(case.impl)
+                k = next((i for i, (x, y) in enumerate(zip(model, impl)) if x != y), min(len(model), len(impl)))
+                detail["first_differing_step_of_the_follow_up"] = k
+                detail["model_from_fresh_world"] = p_c03.fenc(model[k]) if k < len(model) else None
+                detail["used_world"] = p_c03.fenc(impl[k]) if k < len(impl) else None
+            # C08 on the implementation: the used world's follow-up equals the fresh twin's (and the invariant holds)
+            return core.Verdict(ms_, (ms == 1) if pre == 1 else None, twin_same and is_ == 1, detail)
         if case.desc.get("layer") == "sub":
             inner = core.Case(case.desc["desc"], case.line, case.impl, tags=case.tags)
             v = self._subs()[case.desc["sub"]].interpret(reply, inner)
@@ -253,6 +317,12 @@ class C08Prop(core.Prop):
         return core.Verdict(wire.enc(model), ms == 1, is_ == 1)
 
     def shrink_candidates(self, desc):
+        if desc["layer"] == "grid":
+            for k in range(len(desc["pops"]) - 1, 0, -1):
+                yield dict(desc, pops=desc["pops"][:k] + desc["pops"][k + 1:])
+            for k in range(len(desc["fops"]) - 1, 0, -1):
+                yield dict(desc, fops=desc["fops"][:k])
+            return
         if desc["layer"] == "sub":
             for d in self._subs()[desc["sub"]].shrink_candidates(desc["desc"]):
                 yield {"layer": "sub", "sub": desc["sub"], "desc": d}
